@@ -63,12 +63,13 @@ struct X86 {
   static unsigned reg_bytes(const Reg& r) {
     switch (r.reg_type()) {
       case RegType::kGp8Lo: case RegType::kGp8Hi: return 1; case RegType::kGp16: return 2; case RegType::kGp32: return 4; case RegType::kGp64: return 8;
-      case RegType::kVec128: return 16; case RegType::kVec256: return 32; case RegType::kVec512: return 64; case RegType::kMask: return 8; case RegType::kX86_Mm: return 8;
+      case RegType::kVec32: case RegType::kVec64: case RegType::kVec128: return 16; case RegType::kVec256: return 32; case RegType::kVec512: return 64; case RegType::kMask: return 8; case RegType::kX86_Mm: return 8;
       default: return 0;
     }
   }
   bool is_gp(const Operand_& o) const { return o.is_reg() && o.as<Reg>().reg_group() == RegGroup::kGp && o.as<Reg>().reg_type() >= RegType::kGp8Lo && o.as<Reg>().reg_type() <= RegType::kGp64; }
-  bool is_vec(const Operand_& o) const { return o.is_reg() && (o.as<Reg>().reg_type() == RegType::kVec128 || o.as<Reg>().reg_type() == RegType::kVec256 || o.as<Reg>().reg_type() == RegType::kVec512); }
+  // asmjit's helpers sometimes name an xmm register with a narrower vector type (kVec32/kVec64); the encoder only uses the id
+  bool is_vec(const Operand_& o) const { return o.is_reg() && o.as<Reg>().reg_type() >= RegType::kVec32 && o.as<Reg>().reg_type() <= RegType::kVec512; }
   bool is_k(const Operand_& o) const { return o.is_reg() && o.as<Reg>().reg_type() == RegType::kMask; }
   bool is_mm(const Operand_& o) const { return o.is_reg() && o.as<Reg>().reg_type() == RegType::kX86_Mm; }
 
@@ -158,6 +159,7 @@ struct X86 {
   // scalar moves movd/movq/movss/movsd (n = 4 or 8)
   void mov_scalar(const InstNode* in, unsigned n, bool vex, bool fp) {
     const Operand_& d = in->op(0); const Operand_& s = in->op(in->op_count() - 1);
+    if (fp && (is_gp(d) || is_gp(s) || is_mm(d) || is_mm(s))) { m.unsupported = "invalid operands for movss/movsd"; return; }
     if (in->op_count() == 3) {   // vmovss/vmovsd xmm1, xmm2, xmm3: low from src3, rest of 128 from src2
       if (!(is_vec(d) && is_vec(in->op(1)) && is_vec(s))) { m.unsupported = "3-operand scalar move"; return; }
       uint8_t tmp[16]; memcpy(tmp, m.vec[in->op(1).as<Reg>().id() & 31], 16); memcpy(tmp, m.vec[s.as<Reg>().id() & 31], n);
